@@ -8,6 +8,8 @@ Reference model: bcv.models.posmodel (position list P in 5'->3' order).  Monitor
   map.parent-location        enum(parent_to_relative_location(Q)) == [index(p) for p in enum(Q) if p in P], strand
                              Q.strand o L.strand; LocationOverlapException iff no shared base; both optimize_blocks modes
   map.feature-wrappers       FeatureInterval.sequence_pos_to_feature / feature_pos_to_sequence / *_interval_* agree
+  map.derived                locations derived from an already used location (reverse_strand, reset_strand, reverse,
+                             shift_position) obey the point maps of their own (blocks, strand)
 """
 from bcv.gen import loc as G
 from bcv.models import posmodel as PM
@@ -26,7 +28,7 @@ RULE = (
 SCOPE = {"quick": {"G1": 8, "K1": 3, "G2": 5, "K2": 2, "NR": 1500}, "thorough": {"G1": 11, "K1": 3, "G2": 7, "K2": 2, "NR": 20000}}
 EXHAUSTIVE_SCOPE = {t: f"layouts: genome {s['G1']}, <= {s['K1']} blocks; pairs: genome {s['G2']}, <= {s['K2']} blocks" for t, s in SCOPE.items()}
 FLOOR = {"quick": 1500, "thorough": 5000}
-REQUIRED_MONITORS = ["map.rel-to-parent", "map.parent-to-rel", "map.rel-interval", "map.parent-location", "map.feature-wrappers"]
+REQUIRED_MONITORS = ["map.rel-to-parent", "map.parent-to-rel", "map.rel-interval", "map.parent-location", "map.feature-wrappers", "map.derived"]
 REACH = [
     "inscripta.biocantor.location.location_impl:SingleInterval.relative_to_parent_pos",
     "inscripta.biocantor.location.location_impl:SingleInterval.parent_to_relative_pos",
@@ -208,6 +210,46 @@ def check_feature_wrappers(ctx, blocks, strand, P):
     ctx.check("map.feature-wrappers", got == list(range(n)), key="seq-interval-to-feature", got=got, n=n, exc=repr(exc) if exc else None)
 
 
+def check_derived(ctx, loc, blocks, strand, ov):
+    """Locations derived from `loc` AFTER it has been used (its lazily built block list exists) are locations in their
+    own right: their point maps and sub-interval conversion must follow their own (blocks, strand)."""
+    _ = loc.blocks  # the source has materialised its blocks by now anyway; make it explicit
+    rs = {"+": "-", "-": "+"}[strand]
+    span = (min(b[0] for b in blocks), max(b[1] for b in blocks))
+    derived = [("reverse_strand", lambda: loc.reverse_strand(), blocks, rs),
+               ("reset_strand-opposite", lambda: loc.reset_strand(G.strand_of(rs)), blocks, rs),
+               ("reset_strand-same", lambda: loc.reset_strand(G.strand_of(strand)), blocks, strand),
+               ("shift_position", lambda: loc.shift_position(1), [(a + 1, b + 1) for a, b in blocks], strand)]
+    if type(loc).__name__ == "CompoundInterval":
+        refl = sorted((span[0] + span[1] - b, span[0] + span[1] - a) for a, b in blocks)
+        derived.append(("reverse", lambda: loc.reverse(), refl, rs))
+    for name, fn, dblocks, dstrand in derived:
+        d, exc = ctx.call(fn)
+        if exc is not None:
+            if name == "shift_position" and loc.parent is not None and loc.parent.sequence is not None:
+                continue  # may legitimately leave the parent sequence
+            ctx.check("map.derived", False, key=(name, "raised", type(exc).__name__), exc=repr(exc)[:200])
+            continue
+        DP = PM.positions(dblocks, dstrand)
+        n = len(DP)
+        bad = None
+        for i in range(n):
+            r, e = ctx.call(d.relative_to_parent_pos, i)
+            if e is not None or r != DP[i]:
+                bad = ("rel-to-parent", i, r, repr(e))
+                break
+            r2, e2 = ctx.call(d.parent_to_relative_pos, DP[i])
+            if e2 is not None or not (isinstance(r2, int) and 0 <= r2 < n and DP[r2] == DP[i]):
+                bad = ("parent-to-rel", DP[i], r2, repr(e2))
+                break
+        if bad is None and n >= 2 and not ov:
+            res, e3 = ctx.call(d.relative_interval_to_parent_location, 0, n - 1, G.strand_of("+"))
+            got = _enum(res)[0] if e3 is None else None
+            if got != DP[0:n - 1]:
+                bad = ("rel-interval", got, DP[0:n - 1], repr(e3))
+        ctx.check("map.derived", bad is None, key=(name, bad[0] if bad else None), derived=name, bad=bad, source_strand=strand)
+
+
 def run_case(case, ctx):
     k = case["kind"]
     blocks = [tuple(b) for b in case["blocks"]]
@@ -231,6 +273,7 @@ def run_case(case, ctx):
             ctx.check("map.rel-interval", isinstance(exc, _reject_types()), key="reject-invalid", s=s, e=e, n=n, got=repr(res))
         if all(b[1] >= b[0] for b in blocks) and (case.get("compound") or len(blocks) > 1):
             check_feature_wrappers(ctx, blocks, strand, P)
+        check_derived(ctx, loc, blocks, strand, ov)
         return
 
     if k == "pairs":
